@@ -139,12 +139,14 @@ class Clock:
 
     def __init__(self, real: Any) -> None:
         self._real = real
-        self.now: float | None = None
+        self.script: list[float] = []  # successive answers; the last one repeats
         self.reads = 0
 
     def time(self) -> float:
         self.reads += 1
-        return self._real.time() if self.now is None else self.now
+        if not self.script:
+            return float(self._real.time())
+        return self.script.pop(0) if len(self.script) > 1 else self.script[0]
 
     def __getattr__(self, name: str) -> Any:
         return getattr(self._real, name)
